@@ -44,6 +44,8 @@ def run(prog, res):
   _i2(prog, res)
   _v8(prog, res)
   res.floor('V8', 2)
+  _missing_before_cyclic(prog, res)
+  res.floor('W4', 1)
   fns = []
   for m in ('conditional_pwl_calibration', 'conditional_cdf', 'cdf_layer'):
     fns += [f for f in prog.module(m).all_functions() if f.parent is None]
@@ -515,6 +517,58 @@ def _i2(prog, res):
                    'not keypoint_output_max (M)' % hi)
     return probs
   report('missing', 'missing inputs -> missing output in [min, max]', missing)
+
+
+# ---------------------------------------------------------------------------
+def _missing_before_cyclic(prog, res):
+  """W4: the learned missing output is the LAST parameter and is taken off
+  before the cyclic closing column (a copy of the first keypoint output) is
+  appended; appended first, the copy would be taken for the missing output
+  and the real last parameter would become a keypoint.  Sizes agree in both
+  orders, so V4 cannot see it: the order is decided on the CFG."""
+  from ..cfg import CFG
+  fn = prog.function(M + '.pwl_calibration_fn')
+  cfg = CFG(fn.node)
+  strip = closing = None
+  for st in ast.walk(fn.node):
+    if not (isinstance(st, ast.Assign) and len(st.targets) == 1):
+      continue
+    t = dotted(st.targets[0])
+    v = st.value
+    # x = x[:, :, :-1]
+    if isinstance(v, ast.Subscript) and dotted(v.value) == t and isinstance(
+        v.slice, ast.Tuple) and v.slice.elts and isinstance(
+            v.slice.elts[-1], ast.Slice) and const_value(
+                v.slice.elts[-1].upper, None) == -1 and v.slice.elts[
+                    -1].lower is None:
+      from ..cfg import structural_guards
+      gs = {norm_text(g) for g, p in (structural_guards(fn.node, st) or [])}
+      if any('missing_output_value' in g for g in gs):
+        strip = st
+    # x = tf.concat([x, x[:, :, :1]], axis=-1)
+    if isinstance(v, ast.Call) and (prog.ext_name(fn.module, v.func) or
+                                    '') == 'tf.concat' and v.args and \
+        isinstance(v.args[0], ast.List) and len(v.args[0].elts) == 2 and \
+        dotted(v.args[0].elts[0]) == t and isinstance(
+            v.args[0].elts[1], ast.Subscript) and dotted(
+                v.args[0].elts[1].value) == t:
+      sl = v.args[0].elts[1].slice
+      if isinstance(sl, ast.Tuple) and isinstance(
+          sl.elts[-1], ast.Slice) and const_value(
+              sl.elts[-1].upper, None) == 1:
+        closing = st
+  if strip is None or closing is None:
+    raise AnalysisError('pwl_calibration_fn: the missing-output strip / the '
+                        'cyclic closing column was not found')
+  a, b = cfg.node_of(strip), cfg.node_of(closing)
+  res.check(a not in cfg.reachable_from(b), 'W4',
+            '%s|missing-before-cyclic' % fn.qualname, fn.loc(closing),
+            'the missing output (last parameter) is taken off before the '
+            'cyclic closing column is appended',
+            'the cyclic closing column is appended before the learned missing '
+            'output is taken off: the copy of the first keypoint output is '
+            'used as the missing output and the last parameter becomes a '
+            'keypoint (the function is no longer cyclic)')
 
 
 # ---------------------------------------------------------------------------
